@@ -223,6 +223,11 @@ func (s *liveSess) probeS2C(r *Run, tag string) bool {
 
 func weirdName(r *Run, key string) certs.Name {
 	var label []byte
+	if r.Intn(key, 8) == 0 {
+		// a name of a type the protocol does not know (the type byte is not validated on the wire)
+		t := []byte{4, 5, 0x10, 0x7f, 0x80, 0xfe, 0xff}[r.Intn(key, 7)]
+		return certs.Name{Type: certs.IDType(t), Label: []byte([]string{"alpha.sim", "ex.www.sim", "", "x"}[r.Intn(key, 4)])}
+	}
 	if r.Intn(key, 4) == 0 {
 		// names that sit on the edges of the host patterns in use: the literal parts of a pattern pushed
 		// together, cut by one character, doubled
@@ -370,6 +375,32 @@ func scJunk(r *Run) {
 			}
 			if ai := atkBy[d.Src.String()]; ai != nil && ai.abandon && d.Data[0] == 0x05 {
 				r.CountFault("junk-handshake-abandoned-after-ack", 1)
+				// the half-open session exists on the server now (its id is in the clear in the ServerAuth the
+				// attacker got, and in this ClientAuth): transport and control packets for it, sealed correctly
+				// under keys anybody can guess
+				var sid [4]byte
+				copy(sid[:], d.Data[4:8])
+				src := d.Src
+				for q := 0; q < 1+r.Intn("zerokey", 4); q++ {
+					var key [16]byte
+					switch r.Intn("zerokey", 3) {
+					case 1:
+						for i := range key {
+							key[i] = 0xff
+						}
+					case 2:
+						copy(key[:], sid[:])
+					}
+					mt := transport.MessageTypeTransport
+					if r.Intn("zerokey", 3) == 0 {
+						mt = transport.MessageTypeControl
+					}
+					pkt, err := transport.VerifSealWithKey(sid, uint64(r.Intn("zerokey", 3)), key, mt, r.Bytes("zerokey", r.Intn("zerokey", 40)))
+					if err == nil {
+						n.Inject(src, srvAddr, pkt, time.Duration(1+r.Intn("zerokey", 2000))*time.Millisecond, "guessable-key packet for a half-open session")
+						r.CountFault("junk-guessable-key-packet-for-half-open-session", 1)
+					}
+				}
 				return false
 			}
 		}
